@@ -2,6 +2,7 @@
 package fix
 
 import (
+	"errors"
 	"regexp"
 	"strings"
 	"sync"
@@ -196,3 +197,70 @@ var (
 	ReUnanchored = regexp.MustCompile(`(\w+)\s*(<=|=|<)(\S+)`)
 	RePrefixBad  = regexp.MustCompile(`^(\w+)(<|<=|=)(.+)$`)
 )
+
+// --- source normalisation (functions whose name starts with "inl" are treated as new helpers) ---
+
+// NormCheckedIndex: the bounds check lives in a new helper; after normalisation the access is
+// proved from the helper's check (error phi pinned to its nil edge).
+func NormCheckedIndex(s []int, i int) int {
+	if err := inlCheckIndex(s, i); err != nil {
+		return -1
+	}
+	return s[i]
+}
+
+func inlCheckIndex(s []int, i int) error {
+	if i < 0 || i >= len(s) {
+		return errors.New("index out of range")
+	}
+	return nil
+}
+
+// NormCheckedIndexBad: the helper's check is off by one.
+func NormCheckedIndexBad(s []int, i int) int {
+	if err := inlCheckIndexBad(s, i); err != nil {
+		return -1
+	}
+	return s[i]
+}
+
+func inlCheckIndexBad(s []int, i int) error {
+	if i < 0 || i > len(s) {
+		return errors.New("index out of range")
+	}
+	return nil
+}
+
+// NormPredicate: a condition moved into a helper that decides with a switch; the paths of the
+// caller still carry the three comparisons.
+func NormPredicate(t int) int {
+	if inlEnds(t) {
+		return 1
+	}
+	return 0
+}
+
+func inlEnds(t int) bool {
+	switch {
+	case t == 1327:
+		return true
+	case t <= 1299:
+		return true
+	default:
+		return t >= 2100
+	}
+}
+
+// NormLockStep: two induction variables advancing in lock step.
+func NormLockStep(src []byte) byte {
+	var x byte
+	n := len(src) / 2
+	for i, j := 0, 0; i < n; i, j = i+1, j+2 {
+		x ^= src[j+1]
+	}
+	return x
+}
+
+// NormSum: commutative sums are one term.
+func NormSumA(a, b, c int) int { return (a + b) + c }
+func NormSumB(a, b, c int) int { return c + (b + a) }
